@@ -17,7 +17,8 @@ logging.disable(logging.CRITICAL)
 warnings.simplefilter("ignore")
 
 from traits.api import (  # noqa: E402
-    Any, Dict, HasTraits, Instance, Int, Interface, List, Property, Set, Supports, TraitError, TraitType, Tuple,
+    Any, Dict, Either, HasTraits, Instance, Int, Interface, List, Property, Set, Supports, TraitError, TraitType,
+    Tuple,
     cached_property, provides, push_exception_handler, register_factory)
 from traits.observation.api import match  # noqa: E402
 
@@ -127,6 +128,22 @@ register_factory(q2p, Q, IProto)
 SRC = [P, Q, R]
 
 
+class VW(TraitType):
+    """Validator of the sync partners: fault kind "handler 8" makes it raise (the sync handler contains it)."""
+
+    def validate(self, obj, name, value):
+        if PLAN["kind"] == "handler" and PLAN["k"] == 8 and obj.__dict__.get("_faulty"):
+            PLAN["fired"] = True
+            raise PLAN["exc"]("injected")
+        if type(value) is int:
+            return value
+        self.error(obj, name, value)
+
+
+class Part(HasTraits):
+    w = VW(0)
+
+
 class A(HasTraits):
     x = V()
     t = Tuple(V(), V())
@@ -141,6 +158,8 @@ class A(HasTraits):
     ad = Supports(IProto)
     y = V()
     ad2 = Instance(IProto, adapt="default")
+    ade = Either(Supports(IProto), Instance(Q))   # adaptation as one alternative of a compound (opaque op SetAdE)
+    w = Int(0)                                    # synchronised with two partner objects (opaque ops SetW / SetPW)
     _log = Any()
 
     dp = Property(Int, depends_on="x")      # legacy cached property: outside the model, read into the aux digest
@@ -211,6 +230,11 @@ def make():
     a.on_trait_change(dyn, "x")
     a.observe(obs_x, "x")
     a.observe(obs_l, "l:items")
+    pb, pc = Part(), Part()
+    pb.__dict__["_faulty"] = True                # only the first partner's validator is made to fail
+    a.__dict__["_parts"] = (pb, pc)
+    a.sync_trait("w", pb, mutual=True)
+    a.sync_trait("w", pc, mutual=True)
     a.on_trait_change(lambda: None, "dp")     # a listener, so that a change of x recomputes dp for the notification
     a.__dict__["_vf"] = (obs_z, match(flt))   # the filtered observer of the opaque operations
     a.__dict__["_vz"] = 0
@@ -245,6 +269,8 @@ def reg(a):
 def aux(a):
     """Digest of values read from attributes outside the model: the depends_on property and the zz traits."""
     vals = [num(a.dp)] + [num(a.__dict__.get("zz%d" % i, 0)) for i in range(a.__dict__["_vz"])]
+    vals += [num(a.w), num(a.__dict__["_parts"][1].w)]        # not the first partner: its own validator may have refused
+    vals.append(-5 if a.ade is None else num(getattr(a.ade, "v", -7)))
     h = 0
     for v in vals:
         h = (h * 1000003 + v + 7) % (2 ** 55)
@@ -307,6 +333,14 @@ def execute(a, op, echo):
         a.y
     elif k == "SetAd2":
         a.ad2 = (S if op[1] is None else SRC[op[1]])(v=op[2])
+    elif k == "SUpdate2":
+        a.s.update([val(v) for v in op[1]], [val(v) for v in op[2]])
+    elif k == "SetAdE":
+        a.ade = SRC[op[1]](v=op[2])
+    elif k == "SetW":
+        a.w = op[1]
+    elif k == "SetPW":
+        a.__dict__["_parts"][1].w = op[2]      # always on the second partner: the first one's validator is the faulty one
     elif k == "SetXQ":
         a.trait_setq(x=val(op[1]))
     elif k == "ObsRemove":
